@@ -152,8 +152,8 @@ impl PlugCommand {
         let socket = Package::from_bytes("socket", None, socket, graph.types_mut())?;
         let socket = graph.register_package(socket)?;
 
-        // Collect the plugs by their names
-        let mut plugs_by_name = std::collections::HashMap::<_, Vec<_>>::new();
+        // Collect the plugs by their names, keeping the order given on the command line
+        let mut plugs_by_name = indexmap::IndexMap::<_, Vec<_>>::new();
         for plug in self.plugs.iter() {
             let name = match plug {
                 #[cfg(feature = "registry")]
